@@ -188,6 +188,7 @@ type Obligation struct {
 	Desc   string
 	PC     []*Term
 	Goal   *Term
+	ShortTimeout bool
 	Cover  bool // vacuity check: PC (and Goal) must be satisfiable
 	Alts   [][]*Term // cover.any: alternative path conditions, one of which must be satisfiable
 	ctx    *Ctx
